@@ -229,6 +229,27 @@ func (g *gen) function(e *env, depth int) []*lang.S {
 			echo = append(echo, lang.Var(p))
 		}
 		pf.Body = []*lang.S{lang.Rec(lang.List(echo...)), lang.Return(num(0))}
+		if g.pick(3, "pbmut") == 0 {
+			// container literals as defaults, changed in place by the body: every call without that argument
+			// starts from the literal again
+			pf.Params = append(pf.Params, "dl", "dm")
+			pf.Defs = append(pf.Defs, lang.List(num(1), num(2)), lang.MapLit(lang.Str("k"), num(1)))
+			npar += 2
+			pf.Body = []*lang.S{lang.Rec(lang.List(append(echo, lang.Var("dl"), lang.Var("dm"))...)),
+				lang.Assign(lang.Idx(lang.Var("dl"), num(0)), lang.Op("plus", lang.Idx(lang.Var("dl"), num(0)), num(1))),
+				lang.Assign(lang.Dot(lang.Var("dm"), "k"), lang.Op("plus", lang.Dot(lang.Var("dm"), "k"), num(1))),
+				lang.Rec(lang.List(lang.Var("dl"), lang.Var("dm"))), lang.Return(num(0))}
+			g.tag("container-default-changed-in-place")
+			out = append(out, &lang.S{K: "func", Fn: pf})
+			for i, n := 0, 2+g.pick(3, "pbcalls2"); i < n; i++ {
+				var args []*lang.E
+				for k, na := 0, g.pick(npar-1, "pbargs2"); k < na; k++ {
+					args = append(args, num(k))
+				}
+				out = append(out, lang.Rec(lang.Call(lang.Var(name), args...)))
+			}
+			return out
+		}
 		out = append(out, &lang.S{K: "func", Fn: pf})
 		for i, n := 0, 1+g.pick(3, "pbcalls"); i < n; i++ {
 			var args []*lang.E
